@@ -21,7 +21,9 @@ package obipcr
 //          (family split) the rc(reverse) site at position 0/1 and the forward site at EVERY position
 //          (on a circular template the pair defines an amplicon across the origin for exactly one of
 //          them); each template also reverse-complemented; x -e {0,1} x --delta {absent,2} x
-//          --only-complete-flanking x -c x --fragmented {no (control), yes}.
+//          --only-complete-flanking x -c x --fragmented {no (control), yes}; max-length 1 (thorough
+//          also 2); plus max-length 3 with the gap-1 amplicon, which fits in the overlap the command
+//          gives its fragments, at every position (linear, --fragmented, -e {0,1}).
 //
 // Oracle. Not fragmented, or fragmented with nothing to cut: the multiset of amplicons (template,
 // direction, sequence, match strings, error counts) equals the reference. Fragmented and cut: every
@@ -756,6 +758,27 @@ func TestVerifC11CLI(t *testing.T) {
 			}
 		}
 	}
+	// ---- long templates whose amplicon fits in the fragment overlap the command uses (max-length 3,
+	// gap 1: 12 nt with primers, overlap 11): these must be found at every position whatever is
+	// decided about the longer ones, so that a fragmentation losing MORE than the amplicons longer
+	// than the overlap gets a key of its own
+	for _, p := range pairs[:2] {
+		for _, fam := range []string{"amp-1-f", "amp-1-r"} {
+			for _, e := range []int{0, 1} {
+				mine := r.Mine(k)
+				k++
+				if !mine || r.Expired() {
+					continue
+				}
+				c := c11cCfg{Fwd: p.fwd, Rev: p.rev, E: e, Min: -1, Max: 3, Delta: -1, Frag: true, LongNames: true, Workers: 2, Batch: 7}
+				before := r.Counters["cli_reference_amplicons"]
+				x.long(p, c, fam, 3300, -1)
+				r.Count("cli_reference_amplicons_fitting_the_overlap", r.Counters["cli_reference_amplicons"]-before)
+			}
+		}
+	}
+	r.RequireNonVacuous("cli_reference_amplicons_fitting_the_overlap")
+
 	keys := []string{}
 	for _, p := range pairs {
 		keys = append(keys, p.fwd+"/"+p.rev)
